@@ -6,6 +6,7 @@ import (
 	"io"
 	"sort"
 	"strings"
+	"verif/vsync"
 
 	"cuelabs.dev/go/oci/ociregistry"
 )
@@ -258,6 +259,10 @@ func consumeAgain[T any](seq ociregistry.Seq[T], show func(T) string) (items []s
 
 func consumeAgainUnless[T any](once bool, seq ociregistry.Seq[T], show func(T) string) (items []string, err error, post, again string) {
 	if once {
+		// a thread of a concurrent harness: other threads may run between obtaining a listing and
+		// consuming it (a listing is a value; what it delivers was fixed when it was obtained or is read
+		// under the registry's own synchronisation - either way nothing half-written)
+		vsync.Yield()
 		items, err, post = consumeSeq(seq, 0, show)
 		return
 	}
